@@ -981,7 +981,13 @@ where
 	C: NodeClient + 'a,
 	K: Keychain + 'a,
 {
-	update_outputs(wallet_inst.clone(), keychain_mask, true)?;
+	// (the scan proper only looks at what is in the UTXO set: without this refresh nothing
+	// notices outputs that have left it)
+	if !update_outputs(wallet_inst.clone(), keychain_mask, true)? {
+		return Err(Error::ClientCallback(
+			"unable to refresh the wallet's outputs from the node".to_owned(),
+		));
+	}
 	let tip = {
 		wallet_lock!(wallet_inst, w);
 		w.w2n_client().get_chain_tip()?
